@@ -902,7 +902,7 @@ impl<'de> de::MapAccess<'de> for MapDeserializer {
         match self.iter.next() {
             Some((key, value)) => {
                 self.value = Some(Variable::clone(&value));
-                seed.deserialize(Variable::String(key)).map(Some)
+                seed.deserialize(MapKeyDeserializer { key }).map(Some)
             }
             None => Ok(None),
         }
@@ -941,6 +941,108 @@ impl<'de> de::Deserializer<'de> for MapDeserializer {
         bool u8 u16 u32 u64 i8 i16 i32 i64 f32 f64 char str string
         unit option seq bytes byte_buf map unit_struct newtype_struct
         tuple_struct struct identifier tuple enum ignored_any
+    }
+}
+
+/// Deserializer for the keys of an object. As in serde_json, a key decodes as a
+/// string, as the number or boolean it spells, as an option or newtype around
+/// one of those, or as a unit variant.
+struct MapKeyDeserializer {
+    key: String,
+}
+
+macro_rules! deserialize_numeric_key {
+    ($($method:ident)*) => {
+        $(
+            fn $method<V>(self, visitor: V) -> Result<V::Value, Error>
+            where
+                V: de::Visitor<'de>,
+            {
+                let numeric = matches!(self.key.as_bytes().first(), Some(b'0'..=b'9') | Some(b'-'))
+                    && !self.key.ends_with(|c: char| c.is_ascii_whitespace());
+                if !numeric {
+                    return Err(de::Error::custom("expected a numeric key"));
+                }
+                let number: Number = serde_json::from_str(&self.key)?;
+                if let Some(n) = number.as_u64() {
+                    visitor.visit_u64(n)
+                } else if let Some(n) = number.as_i64() {
+                    visitor.visit_i64(n)
+                } else {
+                    visitor.visit_f64(number.as_f64().unwrap_or(f64::NAN))
+                }
+            }
+        )*
+    };
+}
+
+impl<'de> de::Deserializer<'de> for MapKeyDeserializer {
+    type Error = Error;
+
+    fn deserialize_any<V>(self, visitor: V) -> Result<V::Value, Error>
+    where
+        V: de::Visitor<'de>,
+    {
+        visitor.visit_string(self.key)
+    }
+
+    deserialize_numeric_key! {
+        deserialize_i8 deserialize_i16 deserialize_i32 deserialize_i64
+        deserialize_u8 deserialize_u16 deserialize_u32 deserialize_u64
+        deserialize_f32 deserialize_f64
+    }
+
+    fn deserialize_bool<V>(self, visitor: V) -> Result<V::Value, Error>
+    where
+        V: de::Visitor<'de>,
+    {
+        match self.key.as_str() {
+            "true" => visitor.visit_bool(true),
+            "false" => visitor.visit_bool(false),
+            _ => Err(de::Error::invalid_type(
+                de::Unexpected::Str(&self.key),
+                &visitor,
+            )),
+        }
+    }
+
+    #[inline]
+    fn deserialize_option<V>(self, visitor: V) -> Result<V::Value, Error>
+    where
+        V: de::Visitor<'de>,
+    {
+        visitor.visit_some(self)
+    }
+
+    #[inline]
+    fn deserialize_newtype_struct<V>(
+        self,
+        _name: &'static str,
+        visitor: V,
+    ) -> Result<V::Value, Error>
+    where
+        V: de::Visitor<'de>,
+    {
+        visitor.visit_newtype_struct(self)
+    }
+
+    fn deserialize_enum<V>(
+        self,
+        name: &'static str,
+        variants: &'static [&'static str],
+        visitor: V,
+    ) -> Result<V::Value, Error>
+    where
+        V: de::Visitor<'de>,
+    {
+        self.key
+            .into_deserializer()
+            .deserialize_enum(name, variants, visitor)
+    }
+
+    forward_to_deserialize_any! {
+        char str string bytes byte_buf unit unit_struct seq tuple
+        tuple_struct map struct identifier ignored_any
     }
 }
 
